@@ -39,13 +39,13 @@ func govcAvl(n *TreeNode[int]) bool {
 func TestGovcReplay(t *testing.T) {
 	r := insert[int, govcReplayCmp, govcReplayAlloc[TreeNode[int]]](nil, 7, govcReplayAlloc[TreeNode[int]]{})
 	if r == nil || !govcAvl(r) {
-		t.Errorf("insert(nil, 7): result violates avl: stored height %d, true height %d", r.height, govcTh(r))
+		t.Errorf("REPRODUCED: insert(nil, 7): result violates avl: stored height %d, true height %d", r.height, govcTh(r))
 	}
 	var root *TreeNode[int]
 	for _, k := range []int{0, 1, 2} {
 		root = insert[int, govcReplayCmp, govcReplayAlloc[TreeNode[int]]](root, k, govcReplayAlloc[TreeNode[int]]{})
 	}
 	if d := govcTh(root.right) - govcTh(root.left); d > 1 || d < -1 {
-		t.Errorf("after inserting 0, 1, 2 the root's sub-trees have heights %d and %d: the tree is not balanced", govcTh(root.left), govcTh(root.right))
+		t.Errorf("REPRODUCED: after inserting 0, 1, 2 the root's sub-trees have heights %d and %d: the tree is not balanced", govcTh(root.left), govcTh(root.right))
 	}
 }
